@@ -24,7 +24,7 @@ CHECKS = {
              text='Counts and bounds of both schedules are postconditions/loop invariants on the real generator code for all real delays and all attempt limits incl. 0 and None (no bound on the number of items); delays are reals (A-REAL).',
              ref='DESIGN.md §4 C24'),
  'C02': dict(cat='proof', tech='deductive: serialize(v) == Cassandra-serializer spec bytes as postconditions (fixed-width ints, date, time, zig-zag, vints, uvint, varint with an inductive loop invariant for all integers); bounded stand-ins for decimal and the out-of-range-raises clause of vints',
-             text='Byte-exactness is a postcondition against spec functions transcribed from Cassandra\'s serializers, discharged for all values (varint: unbounded integers via loop invariant + assumed monotonicity lemma of 2^k). Decimal and out-of-range vint values are bounded stand-ins (labelled in the evidence, not counted as proved).',
+             text='Byte-exactness is a postcondition against spec functions transcribed from Cassandra\'s serializers, discharged for all values (varint: unbounded integers via loop invariant + assumed monotonicity lemma of 2^k + one checked product lemma proved in the empty context). Decimal and out-of-range vint values are bounded stand-ins (labelled in the evidence, not counted as proved).',
              ref='DESIGN.md §4 C02'),
  'C01': dict(cat='proof', tech='deductive: deserialize(serialize(v)) == norm(v) as postconditions on the real codec pairs; type constructors proved parametrically in an uninterpreted element codec (sizes unrolled to 3); bounded stand-ins for timestamp/decimal/inet and nested real types',
              text='Scalars are proved for all values and all protocol versions; list/set/map/tuple/UDT/vector are proved for any element codec satisfying the codec contract, all versions, None elements and empty collections, with collection size/arity unrolled to 3 (stated bound); nesting follows by structural induction over those obligations. Library-backed types (timestamp, decimal, inet) are bounded stand-ins, labelled.',
@@ -118,7 +118,7 @@ def main():
                   'source_commits': [], 'add_only': True},
         'engines': [{'name': 'pyvc', 'path': 'pyvc/', 'serves_properties': sorted(CHECKS),
                      'kind_free_text': 'own verification-condition generator for Python: AST symbolic executor over the real source of /repo with sidecar contracts '
-                                       '(contracts/), loop invariants, lock invariants, frame scans; obligations discharged by z3 5.1 (cvc5 on unknown); '
+                                       '(contracts/), loop invariants, lock invariants, frame scans; obligations discharged by a portfolio that stops at the first definite answer: z3 5.1 in process, then the cvc5 1.0.3 CLI on the SMT-LIB export together with z3 re-run in a fresh context under other seeds (DESIGN.md 2.8); '
                                        'native replay of counter-models under /venv/bin/python'}],
         'checks': [], 'not_applicable': [],
         'notes': 'Exit codes of ./check: 0 held, 1 violation (VIOLATION line), 2 undecided, 3 checker error. See DESIGN.md.',
